@@ -88,6 +88,12 @@ package githistory
 //@   at call (*v2.ObjectDatabase).WriteCommit:1 assert arg1__ != nil && arg1__.Author == original.Author && arg1__.Committer == original.Committer && arg1__.Message == original.Message && arg1__.ExtraHeaders == original.ExtraHeaders
 //@   at call (*v2.ObjectDatabase).WriteCommit:1 assert len(arg1__.ParentIDs) == len(original.ParentIDs) && arg1__.TreeID == rewrittenTree
 //@   at call (*githistory.Rewriter).cacheCommit:1 assert arg1__ == oid
+// A commit keeps its original id only if the rewritten commit equals it as a
+// whole - same tree AND same (rewritten) parents; otherwise the id recorded for
+// it is the one the newly written commit got (an unchanged tree on top of
+// rewritten ancestors still needs a new commit, or those ancestors are lost).
+//@   at call (*githistory.Rewriter).cacheCommit:1 assert @C12 !lastcommiteq(0) ==> arg2__ == lastwrittencommit(0)
+//@   at call (*v2.Commit).Equal:1 assert @C12 arg0__ == original && arg1__ == rewrittenCommit
 //@   at call (*githistory.Rewriter).rewriteTree:1 assert arg1__ == oid && arg2__ == original.TreeID && arg3__ == ""
 //@ func (*Rewriter).uncacheCommit
 //@   assumed
